@@ -1272,11 +1272,16 @@ func checkSortDriver(c *Ctx, r *Rec, info *types.Info, fd *ast.FuncDecl, merge *
 					}
 				}
 			}
-			es, ok := st.(*ast.ExprStmt)
-			if !ok {
+			var cl0 ast.Expr
+			if es, ok := st.(*ast.ExprStmt); ok {
+				cl0 = es.X
+			} else if lhs, rhs, ok := multiDefStmt(st); ok && len(lhs) == 1 {
+				cl0 = rhs // var copied = copy(buffer, values): the count is kept for an assertion
+			}
+			if cl0 == nil {
 				continue
 			}
-			if cl, ok := es.X.(*ast.CallExpr); ok && isBuiltinCall(info, cl, "copy") && len(cl.Args) == 2 {
+			if cl, ok := ast.Unparen(cl0).(*ast.CallExpr); ok && isBuiltinCall(info, cl, "copy") && len(cl.Args) == 2 {
 				if st.Pos() < outer.Pos() {
 					copiesBefore++
 					if same(exprStr(cl.Args[0]), src) && same(exprStr(cl.Args[1]), dst) {
